@@ -38,7 +38,7 @@ def _run(rnd, n, one):
             mine = [w for w in whats if PROP is None or w.startswith(PROP + ':')]
             if mine:
                 return dict(tried=tried + 1, distinct=len(seen) + 1,
-                            hit=dict(inputs={'scenario': script}, run=dict(failed=mine, detail=str(h.detail)[:500], outcome='violation')))
+                            hit=dict(inputs={'scenario': script}, run=dict(failed=mine, detail=str(h.detail)[:3000], outcome='violation')))
         tried += 1
         seen.add(repr(script))
     return dict(tried=tried, distinct=len(seen), hit=None)
@@ -74,7 +74,7 @@ def _run_exhaustive(one, limit):
             mine = [q + ':' + tag for q in props.split('+') if PROP is None or q == PROP]
             if mine:
                 return dict(tried=tried + 1, distinct=tried + 1, exhaustive=False,
-                            hit=dict(inputs={'scenario': script}, run=dict(failed=mine, detail=str(h.detail)[:500], outcome='violation')))
+                            hit=dict(inputs={'scenario': script}, run=dict(failed=mine, detail=str(h.detail)[:3000], outcome='violation')))
         tried += 1
         t = e.trail
         while t and t[-1][0] + 1 >= t[-1][1]:
@@ -477,8 +477,9 @@ def client_leader(by_broker, pl):
 
 def scenario_client_close(rnd, n):
     """close() fires only after every broker client (also those being closed by earlier metadata refreshes) has gone"""
+    from unittest.mock import Mock
     from afkak import KafkaClient
-    from afkak.common import BrokerMetadata
+    from afkak.common import BrokerMetadata, ClientError, ProduceRequest, TopicAndPartition
 
     class FakeBroker:
         def __init__(self, nid):
@@ -504,6 +505,10 @@ def scenario_client_close(rnd, n):
         for i, f in fakes.items():
             client._brokers[i] = BrokerMetadata(i, 'h', 1)
             client.clients[i] = f
+        client.topic_partitions['t'] = [0]
+        client.topic_errors['t'] = 0
+        client.topics_to_brokers[TopicAndPartition('t', 0)] = client._brokers[1]
+        client._group_to_coordinator['g'] = client._brokers[1]
         closing = []
         alive = set(fakes)
         result = []
@@ -545,6 +550,29 @@ def scenario_client_close(rnd, n):
                     f.closed_d.callback(None)
             if len(result) != 1:
                 raise Hit('C20:close-deferred-did-not-fire-exactly-once', len(result))
+            # after close: cached metadata is gone, every new operation fails, no connection is attempted
+            if client.topics_to_brokers or client.topic_partitions or client.topic_errors or client._group_to_coordinator:
+                raise Hit('C20:cached-metadata-not-cleared-by-close')
+            attempts = []
+            client._endpoint_factory = lambda *a, **kw: attempts.append(a) or Mock()
+            for what, op in (('get-brokerclient', lambda: client._get_brokerclient(1)),
+                             ('broker-agnostic-request', lambda: client._send_broker_unaware_request(7, b'r')),
+                             ('load-metadata', lambda: client.load_metadata_for_topics('t')),
+                             ('produce', lambda: client.send_produce_request([ProduceRequest('t', 0, [])]))):
+                got = []
+                try:
+                    rv = op()
+                except ClientError:
+                    continue
+                except Exception as e:
+                    raise Hit('C20:unexpected-exception-%s' % type(e).__name__, what)
+                if isinstance(rv, defer.Deferred):
+                    rv.addBoth(got.append)
+                    if got and isinstance(got[0], Failure):
+                        continue
+                raise Hit('C20:new-operation-accepted-after-close', (what, repr(got)[:100]))
+            if attempts:
+                raise Hit('C20:connection-attempted-after-close', len(attempts))
     # exhaustive over every event sequence (a run has at most 2*brokers events): 2..4 brokers on every change, 2..5 in the
     # thorough tier
     NB, DEPTH = ([2, 3, 4] if n <= 400 else [2, 3, 4, 5]), 12
@@ -1090,3 +1118,277 @@ def scenario_bootstrap_close(rnd, n):
 
 SCENARIOS['magic_fallback'] = scenario_magic_fallback
 SCENARIOS['bootstrap_close'] = scenario_bootstrap_close
+
+
+# ---------------------------------------------------------------------------------------------- producer end to end (C01 C09 C19)
+
+def _parse_msgset(data, out, depth=0):
+    """independent reader of a MessageSet (formats 0 and 1, gzip wrappers): appends (key, value, magic)"""
+    import struct
+    import gzip
+    import zlib
+    p = 0
+    while p < len(data):
+        off, size = struct.unpack('>qi', data[p:p + 12])
+        body = data[p + 12:p + 12 + size]
+        p += 12 + size
+        crc, magic, attr = struct.unpack('>IBB', body[:6])
+        if crc != zlib.crc32(body[4:]) & 0xffffffff:
+            raise ValueError('bad crc in produced message')
+        q = 6 + (8 if magic == 1 else 0)
+        kl = struct.unpack('>i', body[q:q + 4])[0]
+        q += 4
+        key = None if kl == -1 else body[q:q + kl]
+        q += max(kl, 0)
+        vl = struct.unpack('>i', body[q:q + 4])[0]
+        q += 4
+        val = None if vl == -1 else body[q:q + vl]
+        if attr & 3 == 1:
+            _parse_msgset(gzip.decompress(val), out, depth + 1)
+        elif attr & 3 == 0:
+            out.append((key, val, magic))
+        else:
+            raise ValueError('unexpected codec %d' % (attr & 3))
+
+
+def _parse_produce_request(data):
+    """-> (api_version, correlation_id, acks, {(topic, partition): [(key, value, magic)]})   (written from the protocol guide)"""
+    import struct
+    api_key, api_version, corr, cl = struct.unpack('>hhih', data[:10])
+    assert api_key == 0, api_key
+    p = 10 + max(cl, 0)
+    acks, timeout, ntopics = struct.unpack('>hii', data[p:p + 10])
+    p += 10
+    out = {}
+    for _ in range(ntopics):
+        tl = struct.unpack('>h', data[p:p + 2])[0]
+        topic = data[p + 2:p + 2 + tl].decode()
+        p += 2 + tl
+        nparts = struct.unpack('>i', data[p:p + 4])[0]
+        p += 4
+        for _ in range(nparts):
+            part, size = struct.unpack('>ii', data[p:p + 8])
+            p += 8
+            msgs = []
+            _parse_msgset(data[p:p + size], msgs)
+            p += size
+            if (topic, part) in out:
+                raise ValueError('partition listed twice in one request')
+            out[(topic, part)] = msgs
+    assert p == len(data), 'trailing bytes in produce request'
+    return api_version, corr, acks, out
+
+
+def scenario_producer_e2e(rnd, n):
+    """Producer composed with the real KafkaClient and codec over simulated broker connections: truthful, exactly-once
+    acknowledgements (C01), retry discipline (C09), nothing transmitted after stop (C19)"""
+    import struct
+    from afkak import KafkaClient, Producer
+    from afkak.common import (BrokerMetadata, TopicMetadata, PartitionMetadata, TopicAndPartition, PRODUCER_ACK_NOT_REQUIRED)
+    from afkak.kafkacodec import CODEC_NONE, CODEC_GZIP
+
+    class FakeBC:
+        def __init__(self, world, node_id):
+            self.world, self.node_id = world, node_id
+            self.host, self.port = 'b%d' % node_id, 9092
+
+        def makeRequest(self, correlationId, request, expectResponse=True):
+            w = self.world
+            d = defer.Deferred()
+            ver, corr, acks, parts = _parse_produce_request(request)
+            if corr != correlationId:
+                raise Hit('C04:correlation-id-in-header-differs', (corr, correlationId))
+            e = dict(node=self.node_id, corr=corr, acks=acks, parts=parts, d=d, status='pending', expect=expectResponse,
+                     after_stop=w['stopped'], leaders=dict(w['leaders']), seq=len(w['log']))
+            w['log'].append(e)
+            if not expectResponse:
+                e['status'] = 'written'
+                d.callback(None)           # a no-response request completes once written to the connection
+            return d
+
+        def connected(self):
+            return True
+
+        def close(self):
+            return defer.succeed(None)
+
+        def updateMetadata(self, m):
+            pass
+
+        def disconnect(self):
+            pass
+
+    def one(r, script):
+        clock = task.Clock()
+        client = KafkaClient(hosts='h:1', reactor=clock, enable_protocol_version_discovery=False, timeout=30.0)
+        world = dict(log=[], leaders={0: r.choice([1, 2]), 1: r.choice([1, 2])}, stopped=False)
+        fakes = {1: FakeBC(world, 1), 2: FakeBC(world, 2)}
+        brokers = {i: BrokerMetadata(i, 'b%d' % i, 9092) for i in (1, 2)}
+        client._get_brokerclient = lambda nid: fakes[nid]
+        md_fail = [False]
+
+        def load_md(*topics):
+            if md_fail[0]:
+                from afkak.common import KafkaUnavailableError
+                return defer.fail(Failure(KafkaUnavailableError('no metadata')))
+            parts = {p: PartitionMetadata('t', p, 0, world['leaders'][p], (1, 2), (1, 2)) for p in (0, 1)}
+            client._merge_topic_metadata(brokers, {'t': TopicMetadata('t', 0, parts)}, False)
+            return defer.succeed(None)
+
+        client.load_metadata_for_topics = load_md
+        load_md('t')
+        acks = r.choice([1, 1, -1, 0])
+        batch = r.choice([False, True, True])
+        max_att = r.choice([1, 2, 3, 4])
+        codec = r.choice([CODEC_NONE, CODEC_NONE, CODEC_GZIP])
+        kw = dict(batch_send=True, batch_every_n=r.choice([2, 3]), batch_every_b=0, batch_every_t=r.choice([0, 5])) if batch else {}
+        prod = Producer(client, req_acks=acks, max_req_attempts=max_att, retry_interval=0.25, codec=codec, **kw)
+        script.append(('config', dict(acks=acks, batch=kw, max_attempts=max_att, codec=codec, leaders=dict(world['leaders']))))
+        sends = []
+
+        def do_send():
+            sid = len(sends)
+            key = r.choice([None, None, b'k1'])
+            msgs = [b'm%d-%d' % (sid, j) for j in range(r.choice([1, 1, 2]))]
+            if r.random() < 0.2:
+                msgs.append(r.choice([None, b'']))
+            s = dict(sid=sid, key=key, msgs=msgs, out=[], cancelled=False)
+            sends.append(s)
+            script.append(('send', sid, key, [m if m is None else m.decode() for m in msgs]))
+            d = prod.send_messages('t', key=key, msgs=list(msgs))
+            d.addBoth(s['out'].append)
+            s['d'] = d
+
+        def pending():
+            return [e for e in world['log'] if e['status'] == 'pending']
+
+        def answer(e, how):
+            script.append(('answer', e['seq'], e['node'], how))
+            if how == 'drop':
+                e['status'] = 'failed'
+                from afkak.common import ClientError
+                e['d'].errback(Failure(ClientError('connection lost')))
+                return
+            codes = {}
+            for (t, p) in e['parts']:
+                if how == 'ok':
+                    codes[(t, p)] = 0 if world['leaders'][p] == e['node'] else 6      # only the leader acknowledges
+                else:
+                    codes[(t, p)] = how
+            e['status'] = 'answered'
+            e['codes'] = codes
+            e['answered_at'] = len(world['log'])        # requests logged from now on were issued after this answer
+            body = struct.pack('>ii', e['corr'], 1) + struct.pack('>h', 1) + b't' + struct.pack('>i', len(codes))
+            for (t, p), c in codes.items():
+                body += struct.pack('>ihq', p, c, 100 + e['seq'])
+            e['d'].callback(body)
+
+        nsteps = r.choice([3, 5, 8, 12])
+        for step in range(nsteps):
+            opts = ['tick'] if world['stopped'] else ['send', 'send', 'tick']
+            if pending():
+                opts += ['answer', 'answer', 'answer']
+            if step > 1 and not world['stopped']:
+                opts += ['move', 'mdfail']
+                if r.random() < 0.2:
+                    opts.append('stop')
+            if sends and r.random() < 0.15:
+                opts.append('cancel')
+            ev = r.choice(opts)
+            if ev == 'send':
+                do_send()
+            elif ev == 'stop':
+                # stop with whatever is queued / in flight: every outstanding send fails, nothing further is transmitted
+                script.append('stop')
+                world['stopped'] = True
+                prod.stop()
+                unfired = [s['sid'] for s in sends if not s['out']]
+                if unfired:
+                    raise Hit('C19:send-outstanding-at-stop-not-failed', unfired)
+            elif ev == 'tick':
+                dt = r.choice([0.1, 0.3, 1.0, 6.0, 31.0])
+                script.append(('tick', dt))
+                clock.advance(dt)
+                for e in pending():
+                    if e['d'].called:
+                        e['status'] = 'timed-out'
+            elif ev == 'answer':
+                answer(r.choice(pending()), r.choice(['ok', 'ok', 'ok', 6, 3, 7, 'drop']))
+            elif ev == 'move':
+                p = r.choice([0, 1])
+                world['leaders'][p] = 3 - world['leaders'][p]
+                script.append(('leader-moves', p, world['leaders'][p]))
+            elif ev == 'mdfail':
+                md_fail[0] = not md_fail[0]
+                script.append(('metadata-unavailable', md_fail[0]))
+            elif ev == 'cancel':
+                s = r.choice(sends)
+                if not s['out']:
+                    script.append(('cancel', s['sid']))
+                    s['cancelled'] = True
+                    s['d'].cancel()
+        # drain: brokers answer what is pending (leaders acknowledge), timers run, then the producer is stopped
+        md_fail[0] = False
+        for _ in range(40):
+            for e in pending():
+                if e['d'].called:
+                    e['status'] = 'timed-out'
+                else:
+                    answer(e, 'ok')
+            clock.advance(1.0)
+            if all(s['out'] for s in sends) and not pending():
+                break
+        if not world['stopped']:
+            script.append('stop')
+            world['stopped'] = True
+            prod.stop()
+        clock.advance(60.0)
+        late = [e for e in world['log'] if e['after_stop']]
+        if late:
+            raise Hit('C19:produce-request-transmitted-after-stop', [e['seq'] for e in late])
+        for s in sends:
+            uniq = s['msgs'][0]
+            carriers = [e for e in world['log'] for (t, p), ms in e['parts'].items() if any(v == uniq for k, v, mg in ms)]
+            if len(s['out']) != 1:
+                raise Hit('C01:send-deferred-fired-%d-times' % len(s['out']), s['sid'])
+            res = s['out'][0]
+            acked = []
+            for e in carriers:
+                for (t, p), ms in e['parts'].items():
+                    vals = [(k, v) for k, v, mg in ms]
+                    want = [(s['key'], m) for m in s['msgs']]
+                    pos = [i for i in range(len(vals)) if vals[i:i + len(want)] == want]
+                    if any(v == uniq for k, v in vals) and not pos:
+                        raise Hit('C01:request-does-not-carry-exactly-the-messages-of-the-send', (s['sid'], vals))
+                    # code 0 is only ever given by the node leading the partition when it answers (see answer())
+                    if pos and (e['status'] == 'written' or (e['status'] == 'answered' and e['codes'][(t, p)] == 0)):
+                        acked.append((e, p))
+            if not isinstance(res, Failure):
+                if acks == PRODUCER_ACK_NOT_REQUIRED:
+                    if res is not None or not acked:
+                        raise Hit('C01:unacknowledged-send-reported-success-without-being-handed-to-a-connection', (s['sid'], repr(res)))
+                else:
+                    if not acked:
+                        raise Hit('C01:success-reported-without-an-acknowledgement-from-the-leader', (s['sid'], repr(res)[:120], [(e['seq'], e['node'], e['status'], e.get('codes'), e['leaders'], list(e['parts'])) for e in carriers]))
+                    if getattr(res, 'topic', None) != 't' or getattr(res, 'error', None) != 0 or \
+                            res.partition not in [p for e, p in acked]:
+                        raise Hit('C01:result-does-not-name-the-acknowledged-topic-and-partition', (s['sid'], repr(res)[:120]))
+            # C09: a payload acknowledged by the leader is never transmitted again
+            ok_time = [e['answered_at'] for e, p in acked if e['status'] == 'answered']
+            if ok_time:
+                again = [e['seq'] for e in carriers if e['seq'] >= min(ok_time)]
+                if again:
+                    raise Hit('C09:payload-transmitted-again-after-the-leader-acknowledged-it', (s['sid'], again, [(e['seq'], e['node'], e['status'], e.get('codes'), {k: [v for _, v, _ in ms] for k, ms in e['parts'].items()}) for e in world['log']]))
+            # attempts: a send is carried by at most max_attempts requests per batch it belongs to
+            if len(carriers) > max_att:
+                raise Hit('C09:payload-transmitted-more-often-than-the-attempt-limit', (s['sid'], len(carriers), max_att))
+        # C09: per partition, messages keep submission order inside every request
+        for e in world['log']:
+            for (t, p), ms in e['parts'].items():
+                ids = [int(v.split(b'-')[0][1:]) for k, v, mg in ms if v and v.startswith(b'm')]
+                if ids != sorted(ids):
+                    raise Hit('C09:messages-of-one-partition-out-of-submission-order', (e['seq'], ids))
+    return _run(rnd, n, one)
+
+
+SCENARIOS['producer_e2e'] = scenario_producer_e2e
